@@ -20,6 +20,9 @@ TRUSTED_BASE = [
     "theorem with #print axioms on every run); no sorry/admit/native_decide/added axioms",
     "the hand-written Lean model lean/LoomVerif/Model/* of /repo/src/rt/* and of the API glue: "
     "modelled, not verified; tied to the code only by the correspondence runs of this check",
+    "the reference semantics Spec/SC.lean and Spec/RC11.lean are specifications (trusted as such); the SC enumerator "
+    "Oracle/SCEnumV.lean is PROVED sound and complete for Spec/SC.lean when it reports 'not capped' (Props/Oracle.lean); "
+    "the RC11 enumerator Oracle/RC11Enum.lean is trusted",
     "the Rust harness /verif/harness (DSL interpreter over the real loom API, record printer), the "
     "verif-hooks dump code in /repo, the Python orchestrator (generation, diffing, classification)",
     "clocks/counters are Nat in the model and u16/usize in the code (no overflow below "
@@ -43,6 +46,10 @@ def load_known():
         if line.startswith("finding:"):
             out.append(json.loads(line[len("finding:"):]))
     return out
+
+
+# checks whose verdicts use the enumerated reference interleaving semantics (Spec/SC.lean via Oracle/SCEnumV.lean)
+SC_ORACLE_USERS = {"C01", "C04", "C05", "C06", "C07", "C08", "C09", "C10", "C11", "C15", "C17", "C18", "C19", "C20"}
 
 
 class Ctx:
@@ -75,10 +82,20 @@ class Ctx:
             self.cov["discharged"] = 0
             self.violation("proof-obligation", {"broken": ["proof audit skipped (LV_DEV_SKIP_PROOFS=1)"]}, found_input=False)
             return False
-        lvlib.build_lean([f"LoomVerif.Props.{pid}", "lvdriver"])
+        # the checks that judge outcomes against the enumerated reference semantics also rest on the theorems that
+        # the enumerator is sound and complete (Props/Oracle.lean): they are audited with the property's own
+        uses_oracle = pid in SC_ORACLE_USERS
+        if uses_oracle:
+            theorems = list(theorems) + json.load(open(os.path.join(lvlib.VERIF, "checks", "theorems.json")))["ORACLE"]
+        lvlib.build_lean([f"LoomVerif.Props.{pid}", "lvdriver"] + (["LoomVerif.Props.Oracle"] if uses_oracle else []))
         audit = os.path.join(lvlib.LEAN_DIR, "LoomVerif", "Audit", f"{pid}.lean")
         cmd = ["lake", "env", "lean", audit]
         r = subprocess.run(cmd, cwd=lvlib.LEAN_DIR, stdout=subprocess.PIPE, stderr=subprocess.STDOUT, text=True)
+        if uses_oracle:
+            r2 = subprocess.run(["lake", "env", "lean", os.path.join(lvlib.LEAN_DIR, "LoomVerif", "Audit", "Oracle.lean")],
+                                cwd=lvlib.LEAN_DIR, stdout=subprocess.PIPE, stderr=subprocess.STDOUT, text=True)
+            r.stdout += "\n" + r2.stdout
+            r.returncode = r.returncode or r2.returncode
         self.cov["checker_cmd"] = (f"cd /verif/lean && lake build LoomVerif.Props.{pid} && "
                                    f"lake env lean LoomVerif/Audit/{pid}.lean")
         found = {}
